@@ -1545,3 +1545,76 @@ Proof.
   - apply Hone; assumption.
   - apply Hone; [exact He' | exact HP'|]. intros x. symmetry. apply Hkeys.
 Qed.
+
+(** *** C09 (c) for ANY setting of remove_empty_shapes, binary64, thresholds
+    <= 1, class IRIs not starting with '%'/"@": the shape-level cleaning is
+    the identity in both runs (EndToEnd2's no-empty-shape lemmas) *)
+From Shexer Require Import Proofs.Bin64Round Proofs.FreqLaws.
+
+Lemma class_iris_ok_perm c g g' : Permutation g g' -> class_iris_ok c g' = class_iris_ok c g.
+Proof. intros HP. unfold class_iris_ok. rewrite (forallb_perm _ g g' HP). reflexivity. Qed.
+
+Lemma run_shapes_is_raw c thr g ns shapes :
+  class_iris_ok c g = true -> wf_frac thr -> fle BAlg thr (fone BAlg) = true ->
+  N.of_nat (List.length g) < 2 ^ 53 ->
+  run_shapes BAlg c thr g = inl (ns, shapes) -> run_raw BAlg c thr g = inl (ns, shapes).
+Proof.
+  intros Hcls Hw Hle Hg H. destruct (r_remove_empty c) eqn:Hre.
+  - apply (run_shapes_raw_nonempty BAlg c thr g ns shapes H). intros ns' l.
+    apply (run_raw_nonempty_remove BAlg okN53 wf_frac BAlg_laws c thr g ns' l Hre Hcls Hw Hle (okN53_of_graph g Hg)).
+  - rewrite <- (run_raw_keep BAlg c thr g Hre). exact H.
+Qed.
+
+Theorem e2e_keys_perm_any c thr g g' ns shapes ns' shapes' :
+  (r_cap c <= 0)%Z -> Permutation g g' ->
+  class_iris_ok c g = true -> wf_frac thr -> fle BAlg thr (fone BAlg) = true ->
+  N.of_nat (List.length g) < 2 ^ 53 ->
+  run_shapes BAlg c thr g = inl (ns, shapes) -> run_shapes BAlg c thr g' = inl (ns', shapes') ->
+  ns' = ns /\
+  (forall cls, In cls (map sh_class shapes) <-> In cls (map sh_class shapes')) /\
+  forall sh sh', In sh shapes -> In sh' shapes' -> sh_class sh = sh_class sh' ->
+    sh_name sh = sh_name sh' /\ sh_n sh = sh_n sh' /\
+    forall key, In key (map (skey (scfg_of c ns)) (sh_stmts sh)) <->
+                In key (map (skey (scfg_of c ns)) (sh_stmts sh')).
+Proof.
+  intros Hcap HP Hcls Hw Hle Hg H H'.
+  assert (Hcls' : class_iris_ok c g' = true) by (rewrite (class_iris_ok_perm c g g' HP); exact Hcls).
+  assert (Hg' : N.of_nat (List.length g') < 2 ^ 53) by (rewrite <- (Permutation_length HP); exact Hg).
+  apply (run_raw_keys_perm BAlg c thr g g' ns shapes ns' shapes' Hcap HP).
+  - apply run_shapes_is_raw; assumption.
+  - apply run_shapes_is_raw; assumption.
+Qed.
+
+(** ... and with no hypothesis on the outcomes: C04's domain without its
+    condition (iii) (EndToEnd2 [run_total_valid]) *)
+Definition valid_input_le1 (c : rcfg) (g : graph) : bool :=
+  typing_okb (r_tau c) g && forallb (sentinel_free (r_tau c)) g && prefix_free c && class_iris_ok c g.
+
+Lemma valid_input_le1_perm c g g' : Permutation g g' -> valid_input_le1 c g' = valid_input_le1 c g.
+Proof.
+  intros HP. unfold valid_input_le1, typing_okb.
+  rewrite (forallb_perm _ g g' HP), (forallb_perm (sentinel_free (r_tau c)) g g' HP), (class_iris_ok_perm c g g' HP).
+  reflexivity.
+Qed.
+
+Theorem e2e_keys_perm_valid_any c thr g g' :
+  (r_cap c <= 0)%Z -> Permutation g g' -> valid_input_le1 c g = true ->
+  wf_frac thr -> fle BAlg thr (fone BAlg) = true -> N.of_nat (List.length g) < 2 ^ 53 ->
+  exists ns shapes shapes',
+    run_shapes BAlg c thr g = inl (ns, shapes) /\ run_shapes BAlg c thr g' = inl (ns, shapes') /\
+    (forall cls, In cls (map sh_class shapes) <-> In cls (map sh_class shapes')) /\
+    forall sh sh', In sh shapes -> In sh' shapes' -> sh_class sh = sh_class sh' ->
+      sh_name sh = sh_name sh' /\ sh_n sh = sh_n sh' /\
+      forall key, In key (map (skey (scfg_of c ns)) (sh_stmts sh)) <->
+                  In key (map (skey (scfg_of c ns)) (sh_stmts sh')).
+Proof.
+  intros Hcap HP Hv Hw Hle Hg.
+  assert (Hv' : valid_input_le1 c g' = true) by (rewrite (valid_input_le1_perm c g g' HP); exact Hv).
+  assert (Hg' : N.of_nat (List.length g') < 2 ^ 53) by (rewrite <- (Permutation_length HP); exact Hg).
+  destruct (run_total_valid c thr g Hw Hle Hg Hv) as (ns & shapes & H).
+  destruct (run_total_valid c thr g' Hw Hle Hg' Hv') as (ns' & shapes' & H').
+  assert (Hcls : class_iris_ok c g = true).
+  { unfold valid_input_le1 in Hv. apply andb_true_iff in Hv. apply Hv. }
+  destruct (e2e_keys_perm_any c thr g g' ns shapes ns' shapes' Hcap HP Hcls Hw Hle Hg H H') as (-> & A & B).
+  exists ns, shapes, shapes'. auto.
+Qed.
